@@ -136,6 +136,12 @@ func (p *c08prop) Plan(tier string, seed int64) []core.Segment {
 			edge = 6
 		}
 		segs = append(segs, core.Segment{Kind: "edge:" + t, N: edge * tierScale(tier, 6), Chunk: 3})
+		// readers that fail hundreds of times in one stream and recover
+		segs = append(segs, core.Segment{Kind: "flaky:" + t, N: 20 * tierScale(tier, 6), Chunk: 5})
+		if t != "GSAP" && t != "OSAP" {
+			// buffers and streams of several megabytes
+			segs = append(segs, core.Segment{Kind: "huge:" + t, N: 2 * tierScale(tier, 3), Chunk: 1})
+		}
 	}
 	return segs
 }
@@ -204,6 +210,58 @@ func (p *c08prop) Gen(kind string, idx int64, seed int64, tier string) core.Case
 			cc.Chunks = append(cc.Chunks, steps)
 		}
 		steps := []RStep{{N: 70000}, {N: 5, Err: 2}, {N: 100000}, {N: 0, Err: 2}, {N: 65536}}
+		cc.Faulty = steps
+		return core.MkCase(p.id, kind, idx, seed, tier, cc)
+	}
+	if class == "huge" {
+		// the default buffer (8 MiB) and buffers of 3-5 MiB on streams of
+		// about 5 MiB: the capacity of the buffer grows in steps that depend
+		// on the sizes of the reads; the blocks must not
+		c := gen.Cfg{Type: typ}
+		if idx%2 == 1 {
+			c = gen.SmallCfg(r, typ, gen.Opts{})
+			c.BufferSize = 3<<20 + r.Intn(2<<20)
+			c.WindowSize = []int{0, 1 << 16, 1 << 20}[r.Intn(3)]
+		}
+		c.ShrinkSize, c.BlockSize = 0, []int{0, 65536, 1 << 17, 100000}[r.Intn(4)]
+		n := 5<<20 + r.Intn(1000)
+		_, stream := gen.Bytes(r, n, c.Hint())
+		cc := C08Case{Cfg: c, Stream: stream}
+		for _, ch := range []int{1000, 4096, 65553, 300000} {
+			var steps []RStep
+			for s := 0; s < n; s += ch {
+				steps = append(steps, RStep{N: ch})
+			}
+			cc.Chunks = append(cc.Chunks, steps)
+		}
+		cc.Faulty = []RStep{{N: 1 << 20}, {N: 5, Err: 2}, {N: 2 << 20}, {N: 0, Err: 2}, {N: 65536}}
+		return core.MkCase(p.id, kind, idx, seed, tier, cc)
+	}
+	if class == "flaky" {
+		// a reader that fails again and again (once, twice or three times in
+		// a row, without data) and always recovers: hundreds of failures in
+		// one stream that runs through many buffer fills
+		c := gen.SmallCfg(r, typ, gen.Opts{MaxBuf: 2000, MinBuf: 64})
+		n := 3000 + r.Intn(5000)
+		if typ == "GSAP" || typ == "OSAP" {
+			// (every refill sorts the buffer again)
+			c = gen.SmallCfg(r, typ, gen.Opts{MaxBuf: 200, MinBuf: 32})
+			n = 1200 + r.Intn(800)
+		}
+		_, stream := gen.Bytes(r, n, c.Hint())
+		cc := C08Case{Cfg: c, Stream: stream}
+		for st := 0; st < 4; st++ {
+			cc.Chunks = append(cc.Chunks, genChunking(r, st, n))
+		}
+		piece := []int{16, 1, 7, 100}[r.Intn(4)]
+		fails := 1 + r.Intn(3)
+		var steps []RStep
+		for s := 0; s < n; s += piece {
+			steps = append(steps, RStep{N: piece})
+			for f := 0; f < fails; f++ {
+				steps = append(steps, RStep{N: 0, Err: 2})
+			}
+		}
 		cc.Faulty = steps
 		return core.MkCase(p.id, kind, idx, seed, tier, cc)
 	}
@@ -352,8 +410,16 @@ func runWrapReader(cc *C08Case, r io.Reader, rd *wrapReader, st *core.Stats) (re
 func driveWrap(wp *lz.WrappedParser, cc *C08Case, r io.Reader, rd *wrapReader, st *core.Stats, stopAfter int) (res *wrapResult, class, msg string) {
 	res = &wrapResult{}
 	plain := r != io.Reader(rd)
-	maxCalls := len(rd.data) + 600 + 16
-	maxReads := 64 + 8*len(rd.data) + 700
+	// (every planned failure of the reader may cost one Parse call and one
+	// reader call more)
+	planned := len(rd.fault)
+	for _, s := range rd.steps {
+		if s.Err == 2 {
+			planned++
+		}
+	}
+	maxCalls := len(rd.data) + 600 + 16 + 2*planned
+	maxReads := 64 + 8*len(rd.data) + 700 + 2*len(rd.steps)
 	errorsSeen := 0
 	// one block value for the whole stream, as a caller reuses it; its whole
 	// capacity is overwritten before every call (memory handed out by the
@@ -588,6 +654,12 @@ func (p *c08prop) Run(c *core.Case, st *core.Stats) []core.Violation {
 			return viol(class, fmt.Sprintf("fault plan %+v persist=%d", cc.Faulty, cc.Persist), msg)
 		}
 		st.Inc("random_fault_plans")
+		if rd.faults >= 256 {
+			st.Inc("streams_with_more_than_256_reader_failures")
+		}
+		if len(cc.Stream) > 4<<20 {
+			st.Inc("streams_of_more_than_4MiB")
+		}
 		if cc.Persist > 0 {
 			st.Inc("persistent_failure_plans")
 		}
@@ -640,5 +712,5 @@ func init() {
 	core.Register(&c08prop{base{id: "C08", level: "fault_enumeration",
 		rule:        "for every generated (configuration of one of the 7 parsers with ShrinkSize < BufferSize <= 200, input of length 0..5*BufferSize incl. exact multiples of BlockSize/BufferSize) the wrapped parser is run (1) with full reads (reference block sequence, EOF repeated 3 times), (2) under 4 chunkings (single bytes, random short reads, short reads mixed with (0,nil) reads, data returned together with io.EOF) and, for a quarter of the cases, under ten readers of other dynamic types from the standard library (bytes/strings readers, bufio, MultiReader of LimitReader and plain struct readers, iotest One-byte/Half/DataErr readers, TeeReader) whose block sequences must equal the reference; 'big' cases repeat this with buffers beyond 64 KiB and the default configuration on inputs of 300-700 kB, (3) under a seeded random multi-fault plan (errors with and without data, optionally a reader that fails persistently for 40 calls), and (4) for inputs <= 400 bytes ALL single fault placements over the first 50 reader calls x {error without data, error with data} and for <= 14 reader calls all double placements x 4 combinations; a recording reader decides what was handed out; non-trivial iff the stream produced at least one block; distinct = distinct concrete case",
 		assumptions: []string{"a one-shot reader error that arrives together with data may be swallowed by Wrap (the property only constrains when an error may be returned)", "io.EOF is signalled by the reader only when its data is exhausted"},
-		mandatory:   []string{"streams_completed", "chunkings_compared", "standard_library_readers_compared", "single_fault_placements", "double_fault_placements", "reader_errors_surfaced", "streams_longer_than_buffer", "streams_multiple_of_buffersize", "persistent_failure_plans", "streams_with_several_blocks", "streams_after_wrapped_reset", "streams_around_capacity_steps"}}})
+		mandatory:   []string{"streams_completed", "chunkings_compared", "standard_library_readers_compared", "single_fault_placements", "double_fault_placements", "reader_errors_surfaced", "streams_longer_than_buffer", "streams_multiple_of_buffersize", "persistent_failure_plans", "streams_with_several_blocks", "streams_after_wrapped_reset", "streams_around_capacity_steps", "streams_with_more_than_256_reader_failures", "streams_of_more_than_4MiB"}}})
 }
